@@ -10,7 +10,13 @@ T2: for the same executions the real auxiliary columns are built for k independe
     running-product / LogUp column must end in the value Lookups!Terminal prescribes (block stack, block hash, op group
     tables and chiplets bus: 1; range bus: its initial value), for every program feature class (single / multi-batch
     spans, split, loop, call, syscall, dynexec, dyncall, unused kernel, every chiplet-talking operation).
-Self-test (binding): a recording with one corrupted chiplet row must be rejected.
+T3: for the feature / Merkle / callee-shape / FRI programs and part of the random corpus the recording carries every row
+    of the chiplets segment, and TV_VM requires it to be exactly the segment Chiplets.tla prescribes for the requests
+    the specification issued: hasher cycles (selectors per row position, first-row state, the seven rounds, node
+    index, absorbed batches / path nodes, returned digest = block hash / HPERM result / Merkle root), bitwise cycles,
+    memory rows in (ctx, addr, clk) order with selectors and deltas, kernel ROM rows, section order and zero padding.
+Self-test (binding): a recording with one corrupted chiplet row (memory bag; hasher / bitwise / memory / kernel ROM cell)
+    must be rejected.
 """
 import json, os
 from lib.common import *
@@ -79,6 +85,16 @@ def run(tier, replay=None):
         progs += vmtrace.cycle_boundary_programs(wd, targets=(62, 63, 64, 126, 127, 128, 254, 255, 256) if thorough else (63, 64, 127))
         progs += vmtrace.chiplet_boundary_programs(thorough)
         progs += vmtrace.callee_shape_programs() + vmtrace.fri_programs() + vmtrace.range_gap_programs(thorough)
+    # T3 : which executions are recorded with every chiplet row
+    nfull = 0
+    for i, p in enumerate(progs):
+        c = p["class"]
+        if c.startswith(("feature:", "callee-", "fri-")) or (c in progen.FEATURE_CLASSES and i % (2 if thorough else 3) == 0) or replay:
+            p["chiprows"] = True
+            nfull += 1
+    ck.extra["executions_with_full_chiplet_rows"] = nfull
+    if not replay and nfull < 40:
+        raise ToolError("only %d executions carry full chiplet rows" % nfull)
     # T1 : bags
     rec = vmtrace.record(progs, wd, "release")
     rows, states, rejects, runs = vmtrace.validate(rec, wd, "c12")
@@ -139,8 +155,31 @@ def run(tier, replay=None):
         ck.extra["selftest_corrupted_memory_row_rejected"] = bool(rj2) and "lk_memory" in rj2[0]["text"]
         if not ck.extra["selftest_corrupted_memory_row_rejected"]:
             raise ToolError("binding self-test failed: a corrupted memory row was not rejected")
+        # one corrupted cell per chiplet in recordings that carry the full rows
+        st = {"chip_hasher": ("syscall-caller", lambda f: f["hasher"][9][1][3].__setitem__(0, f["hasher"][9][1][3][0] ^ 1)),
+              "chip_hasher_sel": ("multi-batch", lambda f: f["hasher"][7][0].__setitem__(0, 0)),
+              "chip_hasher_idx": ("mtree_get", lambda f: f["hasher"][17][2].__setitem__(0, f["hasher"][17][2][0] ^ 1)),
+              "chip_bitwise": ("bitwise", lambda f: f["bw"][6][4].__setitem__(2, 1 - f["bw"][6][4][2])),
+              "chip_memory": ("memory", lambda f: f["mem"][2].__setitem__(6, f["mem"][2][6] + 1)),
+              "chip_kernel": ("kernel-unused", lambda f: f["kern"][1].__setitem__(0, 1))}
+        for name, (cls, mutate) in st.items():
+            demo = [dict(pp, chiprows=True) for pp in progs if pp["class"] == "feature:" + cls][:1]
+            rec3 = vmtrace.record(demo, wd, "release", tag="selftest_" + name)
+            lines = open(rec3).read().split("\n")
+            for i, ln in enumerate(lines):
+                if '"e":"end"' in ln[:60] or (ln.startswith("{") and '"chip"' in ln[:20]):
+                    ev = json.loads(ln)
+                    mutate(ev["chip"]["full"])
+                    lines[i] = json.dumps(ev)
+            with open(rec3, "w") as f:
+                f.write("\n".join(lines))
+            _, _, rj3, _ = vmtrace.validate(rec3, wd, "selftest_" + name, nchunks=1)
+            ok = bool(rj3) and name[:11].rstrip("_") in rj3[0]["text"]
+            ck.extra["selftest_%s_rejected" % name] = ok
+            if not ok:
+                raise ToolError("binding self-test failed: corrupted chiplet cell (%s) was not rejected: %s" % (name, rj3[:1]))
     ck.sample({"class": progs[0]["class"], "program": progs[0]["src"][:200]})
     ck.sample({"class": progs[1]["class"], "program": progs[1]["src"][:200]})
-    ck.assumptions = ["the hasher bus is judged through the real b_chip / vt_chip columns and the number of hasher rows the specification prescribes (8 per block / batch / HPERM, 8 x depth per MPVERIFY, 16 x depth per MRUPDATE)",
+    ck.assumptions = ["the hasher requests are judged three ways: the number of hasher rows the specification prescribes for every execution, the real b_chip / vt_chip columns under random challenges, and - for the executions recorded with full chiplet rows - every cell of every hasher cycle (Chiplets.tla); the RPO round function is uninterpreted and bound by the recorder's table of round outputs computed with the miden-crypto primitive",
                       "stack overflow table and kernel procedure table terminals depend on public inputs: asserted by the AIR (C03) / recorded"]
     return ck.finish()
